@@ -19,7 +19,7 @@ LEVEL_NOTE = 'Trusted: Coq kernel; hand model of registers/core.c read/iteration
 
 def gen(rng, tier):
     big = tier == 'thorough'
-    for _ in range(300 if big else 40):
+    for _ in range(300 if big else 80):
         tab = family_table(rng)
         lo, hi = tab.window()
         ops = [(0,)]
